@@ -305,13 +305,20 @@ def _r11_6_rest(ctx: Ctx, rule: str, add: Func):
         from ..pat import single_defs as _sd
         sd_ = _sd(add.node)
         for n_ in walk_no_nested(add.node):
-            if isinstance(n_, ast.If) and branch_raises(n_.body) and isinstance(n_.test, ast.Call) and call_name(n_.test) == "any" \
-                    and len(n_.test.args) == 1 and isinstance(n_.test.args[0], (ast.GeneratorExp, ast.ListComp)):
-                g_ = n_.test.args[0]
+            tst_ = n_.test if isinstance(n_, ast.If) else None
+            neg_all = isinstance(tst_, ast.UnaryOp) and isinstance(tst_.op, ast.Not) and isinstance(tst_.operand, ast.Call) \
+                and call_name(tst_.operand) == "all"
+            if neg_all:
+                tst_ = tst_.operand
+            if isinstance(n_, ast.If) and branch_raises(n_.body) and isinstance(tst_, ast.Call) and call_name(tst_) in ("any", "all") \
+                    and (call_name(tst_) == "all") == neg_all \
+                    and len(tst_.args) == 1 and isinstance(tst_.args[0], (ast.GeneratorExp, ast.ListComp)):
+                g_ = tst_.args[0]
                 it_ = g_.generators[0].iter
                 it_ = sd_.get(it_.id, it_) if isinstance(it_, ast.Name) else it_
                 e_ = g_.elt
-                if len(g_.generators) == 1 and not g_.generators[0].ifs and isinstance(e_, ast.Compare) and isinstance(e_.ops[0], ast.NotIn) \
+                if len(g_.generators) == 1 and not g_.generators[0].ifs and isinstance(e_, ast.Compare) \
+                        and isinstance(e_.ops[0], ast.In if neg_all else ast.NotIn) \
                         and norm(e_.left) == norm(g_.generators[0].target) and norm(it_) == "%s.resname_len_list" % top_p:
                     tb_ = e_.comparators[0]
                     tb_ = sd_.get(tb_.id, tb_) if isinstance(tb_, ast.Name) else tb_
